@@ -368,6 +368,12 @@ def analyze(ctx, want):
         groups.append(("build", "C15.h" if "C15.h" in want else "C07.e"))
     if "C18.d" in want:
         groups.append(("dot", "C18.d"))
+    if any(g_ == "build" for g_, _ in groups) and not getattr(ctx, "_panic_premises", False):
+        # the reasons given for the minimizer's sites ("every state is in some group", "groups are non-empty") are the
+        # partition invariants: they are premises of this inventory, decided here as well
+        ctx._panic_premises = True
+        from . import minimizer_rules
+        minimizer_rules.analyze(ctx, {"C03.a", "C03.b", "C03.e"})
     for group, rule in groups:
         g, nroots, nreach = inv[group]
         ctx.floor(rule, "%s-path entry points" % group, nroots, {"scan": 10, "build": 8, "dot": 1}[group])
@@ -395,8 +401,16 @@ def analyze(ctx, want):
         from . import symex as S_
         voc = S_.vocabulary()
         grp_allowed = Counter()
+        # (only functions that own sites on THIS path in the reference tree, rules/panic_groups.json: a site of the same
+        # type that was reachable from other entry points only is a new way for this path to panic)
+        import json, os
+        try:
+            members = set(json.load(open(os.path.join(os.path.dirname(__file__), "panic_groups.json")))[group])
+        except (OSError, KeyError, ValueError):
+            members = set()
+            ctx.missing(rule, "rules/panic_groups.json (tools/gen_panic_groups)")
         for r in TABLE:
-            for vn in voc:
+            for vn in sorted(voc & members):
                 if re.search(r[0], vn):
                     grp_allowed[(type_of_fn(vn), merge_kind(r[1]))] += r[2]
                     break
